@@ -49,7 +49,14 @@ def shards(tier, seed):
         _split(specs, dict(N=4, G=2, times="id"), "reduced", 200)
         _split(specs, dict(N=3, G=2, times="weak", grid="frac", timescale="quarter"), "reduced", 200)
         _split(specs, dict(N=3, G=2, times="id", squash=False), "reduced", 200)
+        # a tree exactly one ulp wide: positions / midpoints must not round across it
+        _split(specs, dict(N=2, G=3, times="id", grid="ulp"), "reduced", 200)
+        for tsc in ("ulp", "huge", "tiny"):
+            _split(specs, dict(N=3, G=2, times="id", timescale=tsc), "reduced", 200)
     else:
+        for tsc in ("ulp", "huge", "tiny"):
+            _split(specs, dict(N=4, G=2, times="id", timescale=tsc), "reduced", 600)
+        _split(specs, dict(N=3, G=3, times="id", grid="ulp"), "reduced", 600)
         for n in (0, 1, 2, 3):
             for g in (1, 2, 3):
                 _split(specs, dict(N=n, G=g, times="weak"), "full", 100)
@@ -90,6 +97,8 @@ def build_ts(m):
     for i in range(m.G):
         pos.append(c[i])
         pos.append((c[i] + c[i + 1]) / 2)
+    # on a grid with one-ulp cells the "midpoint" is one of the ends: keep distinct positions below L
+    pos = sorted({x for x in pos if x < m.L})
     for j, x in enumerate(pos):
         s = tc.sites.add_row(x, "0")
         if m.N > 0:
@@ -476,9 +485,16 @@ def check_member(m, mode, acc, deep=True):
                 def f(what, i=i):
                     acc.fail("query:" + what.split("(")[0].split(" ")[0],
                              f"tree {i}: {what}", case)
-                check_queries(tree, rtrees[i], rts, th, tr, f)
+                # a query that raises where the model defines a value is a failure, not a harness crash
+                try:
+                    check_queries(tree, rtrees[i], rts, th, tr, f)
+                except Exception as e:  # noqa
+                    f(f"raised: a tree query raised {e!r}")
                 if oi < 2:
-                    check_traversals(tree, rtrees[i], rts, th, f)
+                    try:
+                        check_traversals(tree, rtrees[i], rts, th, f)
+                    except Exception as e:  # noqa
+                        f(f"raised: a traversal raised {e!r}")
                 if tree.span != ivs[i][1] - ivs[i][0] or tree.mid != ivs[i][0] + (ivs[i][1] - ivs[i][0]) / 2:
                     f("span/mid")
                 nm = sum(1 for j, x in enumerate(site_pos) if ivs[i][0] <= x < ivs[i][1] and N > 0)
@@ -505,7 +521,8 @@ def check_member(m, mode, acc, deep=True):
                 cmp("aslist", i, tree)
         for i in range(nt):
             l, r = ivs[i]
-            for x in (l, (l + r) / 2, math.nextafter(r, -math.inf)):
+            # (for a one-ulp interval the rounded midpoint is an end point: keep only points inside [l, r))
+            for x in sorted({x for x in (l, (l + r) / 2, math.nextafter(r, -math.inf)) if l <= x < r}):
                 cmp("at", i, ts.at(x, **kw))
             cmp("at_index", i, ts.at_index(i, **kw))
             cmp("at_index_neg", i, ts.at_index(i - nt, **kw))
